@@ -17,7 +17,7 @@ import (
 func init() { Register("C16", "exploration", checkC16) }
 
 func checkC16(c *Ctx) error {
-	c.Rule = "seeded configurations carrying 0-5 (every seventh: 10-24, mostly of one step) injected defects drawn from {missing parameter, missing service, service cycle, parameter cycle, scope conflict, grammar error, token error} (several of one class allowed), each run with the four combinations of --ignore-missing-params / --ignore-missing-services; filter law: the ordered diagnostics under flags F equal the diagnostics without flags minus those of the ignored steps (steps identified by the report structure), exit 0 iff nothing remains, ignored steps are marked `ignored`, and a configuration accepted without flags yields byte-identical output under every combination. distinct = distinct configuration; non-trivial = at least one defect of an ignorable class and one of another class, or accepted without flags"
+	c.Rule = "seeded configurations carrying 0-5 (every seventh: 10-24, mostly of one step) injected defects drawn from {missing parameter, missing service, service cycle, parameter cycle, scope conflict, grammar error, token error} (several of one class allowed), each run with the four combinations of --ignore-missing-params / --ignore-missing-services; filter law: the ordered diagnostics under flags F equal the diagnostics without flags minus those of the ignored steps (steps identified by the report structure), exit 0 iff nothing remains, ignored steps are marked `ignored`, and a configuration accepted without flags yields byte-identical output under every combination; other spellings of the same flag values (=false, =true, =0/1/t/f, repeated flags) act like the plain ones. distinct = distinct configuration; non-trivial = at least one defect of an ignorable class and one of another class, or accepted without flags"
 	c.Assumptions = []string{"report structure (step END lines with counts) identifies which step a diagnostic belongs to"}
 	w := c.W
 	n := c.Pick(400, 20000)
@@ -159,6 +159,36 @@ func checkC16(c *Ctx) error {
 			}
 			for _, br := range q.Contract() {
 				c.Violate("cli-contract:"+sigWords(br), fmt.Sprintf("flags %v --quiet: %s", fl, br), files)
+			}
+		}
+		// other spellings of the same flag values: an explicit `=false` is "not given", `=true`/`=1`/`=t` is "given", the last
+		// occurrence of a repeated flag decides
+		spell := []struct {
+			args  []string
+			equal int // index into combos
+		}{
+			{[]string{"--ignore-missing-params=false"}, 0},
+			{[]string{"--ignore-missing-services=false"}, 0},
+			{[]string{"--ignore-missing-params=0", "--ignore-missing-services=f"}, 0},
+			{[]string{"--ignore-missing-params=true"}, 1},
+			{[]string{"--ignore-missing-params=1", "--ignore-missing-services=false"}, 1},
+			{[]string{"--ignore-missing-services=t"}, 2},
+			{[]string{"--ignore-missing-services", "--ignore-missing-params=false"}, 2},
+			{[]string{"--ignore-missing-params", "--ignore-missing-params=false"}, 0},
+			{[]string{"--ignore-missing-services=false", "--ignore-missing-services"}, 2},
+			{[]string{"--ignore-missing-params=TRUE", "--ignore-missing-services=True"}, 3},
+			{[]string{"--stub=false", "--quiet=false", "--ignore-missing-params"}, 1},
+		}
+		for k := 0; k < 3; k++ {
+			sp := spell[(i*3+k)%len(spell)]
+			out := filepath.Join(dir, fmt.Sprintf("spell%d.go", k))
+			args := append([]string{"build", "-i", "in.yaml", "-o", out}, sp.args...)
+			q := cli.Do(w, "", nil, dir, out, args...)
+			b, _ := os.ReadFile(out)
+			c.Add("flag_spellings_compared", 1)
+			if q.Res.Exit != runs[sp.equal].Res.Exit || string(b) != outs[sp.equal] || strings.Join(q.Rep.List, "\n") != strings.Join(runs[sp.equal].Rep.List, "\n") {
+				files["stdout-spelling.txt"] = q.Res.Stdout
+				c.Violate("flag-spelling-changes-effect:"+strings.Join(sp.args, "+"), fmt.Sprintf("flags %v must act like %v: exit %d vs %d, output equal %v\nspelled: %q\nplain:   %q", sp.args, combos[sp.equal], q.Res.Exit, runs[sp.equal].Res.Exit, string(b) == outs[sp.equal], q.Rep.List, runs[sp.equal].Rep.List), files)
 			}
 		}
 		if runs[0].Res.Exit == 0 {
